@@ -1,9 +1,7 @@
-import DiffxVerif.Properties.C05
-#print axioms Diffx.C05.C05_canonical
-#print axioms Diffx.C05.C05_skips_empty
+import DiffxVerif.Properties.C06
+#print axioms Diffx.C06.C06_options_verbatim
+#print axioms Diffx.C06.C06_reserialise_is_run
+#print axioms Diffx.C06.C06_preamble_indent_recorded
+#print axioms Diffx.C06.C06_unknown_option_witness
 #print axioms Diffx.C05.C05_load_shape
-#print axioms Diffx.C05.C05_load_content_opts
 #print axioms Diffx.C05.C05_load_errors
-#print axioms Diffx.C05.C05_load_no_other
-#print axioms Diffx.C05.C05_load_no_other_records
-#print axioms Diffx.C05.C06_unknown_option_witness
